@@ -59,11 +59,44 @@ Theorem C01_der_ber_roundtrip : ltac:(let T := type of Asn1V.Props.C03.C03_der_b
 Proof. exact Asn1V.Props.C03.C03_der_ber_roundtrip. Qed.
 Print Assumptions C01_der_ber_roundtrip.
 
-(** BER: round trip for types without SET / SET OF / named bits (where the BER and DER encoders coincide); full ber_roundtrip is OPEN.
+(** BER: round trip for types without SET / SET OF / named bits (where the BER and DER encoders coincide); superseded by C01_ber_roundtrip below.
     (statement = the type of [Asn1V.Ber.BerRoundtrip.ber_roundtrip_partial]; written out in that file) *)
 Theorem C01_ber_roundtrip_partial : ltac:(let T := type of Asn1V.Ber.BerRoundtrip.ber_roundtrip_partial in exact T).
 Proof. exact Asn1V.Ber.BerRoundtrip.ber_roundtrip_partial. Qed.
 Print Assumptions C01_ber_roundtrip_partial.
+
+From Asn1V Require Ber.BerRoundtripFull.
+
+(** BER, all types in scope (SET in the encoder's own order, unsorted SET OF, named-bit strings with their trailing
+    zero bits): for a value of the type ([der_tree .. = Some _]), decode (ber_encode v ++ tail) = (nv, |encoding|)
+    with nv abstractly equal to v ([veq_loose]; [C01_ber_roundtrip] names nv = [bnorm v]: declaration order, DEFAULTs
+    filled in).  Route: the encoder's output is the serialisation of a well-formed BER tree that the specification
+    reader reads as [bnorm v] ([C01_ber_output_is_ber]), then C04_ber_accepts.
+    (statements = the types of the theorems of Ber/BerRoundtripFull.v; written out in notes/BER-roundtrip.md) *)
+Theorem C01_ber_roundtrip_abstract : ltac:(let T := type of Asn1V.Ber.BerRoundtripFull.ber_roundtrip_abstract in exact T).
+Proof. exact Asn1V.Ber.BerRoundtripFull.ber_roundtrip_abstract. Qed.
+Print Assumptions C01_ber_roundtrip_abstract.
+
+Theorem C01_ber_roundtrip : ltac:(let T := type of Asn1V.Ber.BerRoundtripFull.ber_roundtrip in exact T).
+Proof. exact Asn1V.Ber.BerRoundtripFull.ber_roundtrip. Qed.
+Print Assumptions C01_ber_roundtrip.
+
+(** recursive types: tag tables inspected [d] constructed levels deep, encoding nested at most [S d] deep *)
+Theorem C01_ber_roundtrip_depth : ltac:(let T := type of Asn1V.Ber.BerRoundtripFull.ber_roundtrip_D in exact T).
+Proof. exact Asn1V.Ber.BerRoundtripFull.ber_roundtrip_D. Qed.
+Print Assumptions C01_ber_roundtrip_depth.
+
+Theorem C01_ber_encode_total : ltac:(let T := type of Asn1V.Ber.BerRoundtripFull.ber_encode_total in exact T).
+Proof. exact Asn1V.Ber.BerRoundtripFull.ber_encode_total. Qed.
+Print Assumptions C01_ber_encode_total.
+
+Theorem C01_ber_output_is_ber : ltac:(let T := type of Asn1V.Ber.BerRoundtripFull.ber_output_is_ber in exact T).
+Proof. exact Asn1V.Ber.BerRoundtripFull.ber_output_is_ber. Qed.
+Print Assumptions C01_ber_output_is_ber.
+
+Example C01_ber_hypotheses_inhabited : ltac:(let T := type of Asn1V.Ber.BerRoundtripFull.ex_all_hypotheses in exact T).
+Proof. exact Asn1V.Ber.BerRoundtripFull.ex_all_hypotheses. Qed.
+Print Assumptions C01_ber_hypotheses_inhabited.
 
 
 Local Open Scope string_scope.
